@@ -23,7 +23,7 @@ inductive XStep
 
 def xstep (st : BuildSt) : XStep → BuildSt
   | .base s => step st s
-  | .initialTx i o => { st with ins := st.ins ++ i, outs := st.outs ++ o }
+  | .initialTx i o => { st with ins := i, outs := o }
 
 def runX (st : BuildSt) (elems : List XStep) : BuildSt := elems.foldl xstep st
 
